@@ -102,7 +102,8 @@ XAccept(ev, N, ES, x, r) ==
 \* the code also refines the algorithm-level specification AlgoPx (which MCAlgo shows refines Accept for every N)
 AlgoOk(ev, N, x) ==
   /\ (ev.t = "x2" /\ ev.op = "mul" /\ N >= 3) => Shr(ev.r, XSh(ev)) = AlgoMulE2(N, x[1], x[2])
-  /\ (ev.t = "x2" /\ ev.op = "add" /\ N >= 3 /\ AddSamePre(N, x[1], x[2])) => Shr(ev.r, XSh(ev)) = AlgoAddSameE2(N, x[1], x[2])
+  /\ (ev.t = "x2" /\ ev.op = "add" /\ N >= 3) => Shr(ev.r, XSh(ev)) = AlgoAddE2(N, x[1], x[2])
+  /\ (ev.t = "x2" /\ ev.op = "sub" /\ N >= 3) => Shr(ev.r, XSh(ev)) = AlgoSubE2(N, x[1], x[2])
 GoodX(ev, F, raw) ==
   LET N == F[1] ES == F[2] x == XArgs(ev, raw) IN
   /\ ev.o = "ok"
